@@ -252,7 +252,13 @@ public:
     return local_iterator(&heads, galois::substrate::ThreadPool::getTID());
   }
   local_iterator local_end() {
-    return local_iterator(&heads, galois::substrate::ThreadPool::getTID() + 1);
+    unsigned tid = galois::substrate::ThreadPool::getTID();
+    // Items inserted in a region that ran with more threads than are active
+    // now belong to no active thread: the last active thread covers them, so
+    // that the local ranges of the active threads still partition the bag.
+    if (tid + 1 == galois::getActiveThreads())
+      return local_iterator(&heads, heads.size());
+    return local_iterator(&heads, tid + 1);
   }
 
   bool empty() const {
